@@ -17,6 +17,7 @@ timeout that raises `SchedError` (a harness error, never a property violation).
 """
 import sys
 import threading
+import _thread
 
 TIMEOUT = 20.0
 
@@ -37,11 +38,18 @@ def is_kill(e):
     return isinstance(e, SystemExit) and e.args == (KILL,)
 
 
+def _held_lock():
+    """A raw lock used as a binary semaphore (C level: a hand-over costs a few microseconds)."""
+    lk = _thread.allocate_lock()
+    lk.acquire()
+    return lk
+
+
 class Rec:
     def __init__(self, tid, kind):
         self.tid = tid
         self.kind = kind            # 'ctl' | 'worker'
-        self.go = threading.Semaphore(0)
+        self.go = _held_lock()       # released by the scheduler to grant one turn
         self.at = ('new', 0)        # label of the yield point the thread is stopped at
         self.done = False
         self.blocked_on = None      # Rec of the thread this one joins
@@ -62,13 +70,14 @@ class Sched:
         self.recs = {}              # tid -> Rec
         self.by_ident = {}          # thread ident -> Rec
         self.order = []             # tids in creation order
-        self.back = threading.Semaphore(0)
+        self.back = _held_lock()     # released by a managed thread when it hands the baton back
         self.nworkers = 0
         self._real_start = None
         self._real_join = None
         self._installed = False
         self.current = None
         self.on_worker = None       # callback(rec, thread) when a worker registers
+        self.before_start = None    # callback(thread) just before a worker thread is really started
 
     # ---- installation ---------------------------------------------------------------------
     def install(self):
@@ -80,8 +89,10 @@ class Sched:
         sched = self
 
         def start(thr):
-            sched._real_start(thr)
             code = getattr(getattr(type(thr), 'run', None), '__code__', None)
+            if code in sched.entry and sched.before_start is not None:
+                sched.before_start(thr)
+            sched._real_start(thr)
             if code in sched.entry and sched._me() is not None:
                 rec = None
                 # the new thread registers itself at the 'call' event of run()
@@ -124,7 +135,10 @@ class Sched:
 
     # ---- thread side ----------------------------------------------------------------------
     def _me(self):
-        return self.by_ident.get(threading.get_ident())
+        rec = self.by_ident.get(threading.get_ident())
+        if rec is not None and rec.thread is not threading.current_thread():
+            return None             # the OS re-used the ident of a finished managed thread
+        return rec
 
     def _find_thread(self, thr):
         for r in list(self.recs.values()):
@@ -249,7 +263,10 @@ class Sched:
             r.kill = True
         for r in self.recs.values():
             if not r.done:
-                r.go.release()
+                try:
+                    r.go.release()
+                except RuntimeError:
+                    pass
         for r in self.recs.values():
             if r.thread is not None and r.thread.ident is not None:
                 (self._real_join or threading.Thread.join)(r.thread, TIMEOUT)
